@@ -157,4 +157,170 @@ theorem wellKeyed_checkKeyVal (env : Env) (k : Key) (v v' : Tree) (hv : WellKeye
     | ok a => simp [hd, Except.map] at h; subst h; exact .leaf a
   · simp at h; subst h; exact hv
 
+/-! ### `update` (update_defaults / refresh) keeps the tree well keyed as well -/
+
+/-- every key of the mapping, at every depth, does not mix '-' and '_' -/
+inductive UKeys : Tree → Prop
+  | leaf (a : Atom) : UKeys (.leaf a)
+  | node (d : Dict) : (∀ k t, (k, t) ∈ d → Uniform k) → (∀ k t, (k, t) ∈ d → UKeys t) → UKeys (.node d)
+
+theorem ukeys_cons (k0 : Key) (t : Tree) (rest : List (Key × Tree)) (h : UKeys (.node ((k0, t) :: rest))) :
+    Uniform k0 ∧ UKeys t ∧ UKeys (.node rest) := by
+  cases h with
+  | node _ hu hs =>
+    exact ⟨hu k0 t (by simp), hs k0 t (by simp),
+      .node rest (fun k t h => hu k t (by simp [h])) (fun k t h => hs k t (by simp [h]))⟩
+
+theorem updateLeaf_cases (prio : Priority) (old old' : Dict) (defs : Option Tree) (k dk : Key) (v : Tree)
+    (h : updateLeaf prio old defs k dk v = .ok old') : old' = old ∨ old' = dset old k v := by
+  unfold updateLeaf at h
+  split at h
+  · simp at h; exact Or.inr h.symm
+  · split at h
+    · simp at h; exact Or.inr h.symm
+    · split at h
+      · simp only [bind, Except.bind] at h
+        split at h
+        · simp at h
+        · split at h
+          · simp at h; exact Or.inr h.symm
+          · simp at h; exact Or.inl h.symm
+      · simp at h; exact Or.inl h.symm
+
+/-- the `old[k] = {}` normalisation of the mapping branch -/
+theorem wellKeyed_old1 (old old1 cur : Dict) (k0 : Key) (X : Tree) (hw : WellKeyed (.node old)) (hk : Uniform k0)
+    (hX : WellKeyed X)
+    (h : (match dget old (canonicalName k0 old) with
+        | some (Tree.node cur) => (old, cur)
+        | _ => (dset old (canonicalName k0 old) (Tree.node []), [])) = (old1, cur)) :
+    WellKeyed (.node cur) ∧ WellKeyed (.node (dset old1 (canonicalName k0 old) X)) ∧ WellKeyed (.node old1) := by
+  split at h
+  · rename_i c hg
+    simp at h
+    obtain ⟨h1, h2⟩ := h
+    subst h1; subst h2
+    exact ⟨wellKeyed_sub _ _ _ hw hg, wellKeyed_dset _ _ _ hw hk hX, hw⟩
+  · simp at h
+    obtain ⟨h1, h2⟩ := h
+    subst h1; subst h2
+    refine ⟨wellKeyed_nil, ?_, wellKeyed_dset _ _ _ hw hk wellKeyed_nil⟩
+    rw [dset_dset]
+    exact wellKeyed_dset _ _ _ hw hk hX
+
+theorem wellKeyed_updateP (env : Env) (prio : Priority) (nested : Bool) (old : Dict) (defs : Option Tree)
+    (new : List (Key × Tree)) : WellKeyed (.node old) → UKeys (.node new) →
+    WellKeyed (.node (updateP env prio nested old defs new).1) := by
+  fun_induction updateP env prio nested old defs new
+  case case1 => intro hw _; exact hw
+  case case2 => intro hw _; exact hw
+  case case3 =>
+    intro hw hu
+    rename_i hm _ _
+    obtain ⟨huk, _, _⟩ := ukeys_cons _ _ _ hu
+    exact (wellKeyed_old1 _ _ _ _ (.node []) hw huk wellKeyed_nil hm).2.2
+  case case4 =>
+    intro hw hu
+    rename_i hm _ _ _ _ _ _ ih
+    obtain ⟨huk, hus, _⟩ := ukeys_cons _ _ _ hu
+    have h0 := (wellKeyed_old1 _ _ _ _ (.node []) hw huk wellKeyed_nil hm).1
+    exact (wellKeyed_old1 _ _ _ _ _ hw huk (ih h0 hus) hm).2.1
+  case case5 =>
+    intro hw hu
+    rename_i hm _ _ _ _ _ ih2 ih1
+    obtain ⟨huk, hus, hur⟩ := ukeys_cons _ _ _ hu
+    have h0 := (wellKeyed_old1 _ _ _ _ (.node []) hw huk wellKeyed_nil hm).1
+    exact ih1 (wellKeyed_old1 _ _ _ _ _ hw huk (ih2 h0 hus) hm).2.1 hur
+  case case6 => intro hw _; exact hw
+  case case7 => intro hw _; exact hw
+  case case8 =>
+    intro hw hu
+    rename_i v hv _ _ hl ih
+    obtain ⟨huk, _, hur⟩ := ukeys_cons _ _ _ hu
+    apply ih _ hur
+    have hvw : WellKeyed v := by
+      split at hv
+      · simp at hv; rw [← hv]; exact .leaf _
+      · exact wellKeyed_checkKeyVal env _ _ _ (.leaf _) hv
+    rcases updateLeaf_cases _ _ _ _ _ _ _ hl with e | e <;> rw [e]
+    · exact hw
+    · exact wellKeyed_dset _ _ _ hw huk hvw
+
+theorem ukeys_normaliseTop (env : Env) : ∀ (new new' : List (Key × Tree)), UKeys (.node new) →
+    normaliseTop env new = .ok new' → UKeys (.node new') := by
+  intro new
+  induction new with
+  | nil => intro new' h hn; simp [normaliseTop] at hn; subst hn; exact h
+  | cons kv rest ih =>
+    intro new' h hn
+    obtain ⟨k, v⟩ := kv
+    obtain ⟨huk, huv, hur⟩ := ukeys_cons _ _ _ h
+    simp only [normaliseTop, bind, Except.bind] at hn
+    split at hn
+    · simp at hn
+    · rename_i v' hv
+      split at hn
+      · simp at hn
+      · rename_i rest' hr
+        simp at hn
+        subst hn
+        have hrest := ih rest' hur hr
+        have hv' : UKeys v' := by
+          unfold checkKeyVal at hv
+          split at hv
+          · cases hd : validateDevice env v with
+            | error e => simp [hd, Except.map] at hv
+            | ok a => simp [hd, Except.map] at hv; subst hv; exact .leaf a
+          · simp at hv; subst hv; exact huv
+        cases hrest with
+        | node _ hu hs =>
+          refine .node _ ?_ ?_
+          · intro k1 t1 hm
+            rcases List.mem_cons.mp hm with e | hm
+            · cases e; exact huk
+            · exact hu k1 t1 hm
+          · intro k1 t1 hm
+            rcases List.mem_cons.mp hm with e | hm
+            · cases e; exact hv'
+            · exact hs k1 t1 hm
+
+theorem wellKeyed_refreshP_go (env : Env) : ∀ (ds : List Dict) (cfg : Dict), WellKeyed (.node cfg) →
+    (∀ d ∈ ds, UKeys (.node d)) → WellKeyed (.node (refreshP.go env cfg ds).1) := by
+  intro ds
+  induction ds with
+  | nil => intro cfg h _; simpa [refreshP.go] using h
+  | cons d rest ih =>
+    intro cfg h hall
+    have hstep := wellKeyed_updateP env .new false cfg .none d h (hall d (by simp))
+    rw [refreshP.go]
+    split
+    · rename_i cfg' hu
+      rw [hu] at hstep
+      exact ih cfg' hstep (fun d' hd' => hall d' (by simp [hd']))
+    · rename_i cfg' e hu
+      rw [hu] at hstep
+      exact hstep
+
+/-- the state invariant: configuration well keyed, every registered default uniformly keyed -/
+def StateOK (s : State) : Prop := WellKeyed (.node s.config) ∧ ∀ d ∈ s.defaults, UKeys (.node d)
+
+theorem stateOK_refreshP (env : Env) (s : State) (h : StateOK s) : StateOK (refreshP env s).1 :=
+  ⟨wellKeyed_refreshP_go env s.defaults [] wellKeyed_nil h.2, h.2⟩
+
+theorem stateOK_updateDefaultsP (env : Env) (s : State) (new : Dict) (h : StateOK s) (hn : UKeys (.node new)) :
+    StateOK (updateDefaultsP env s new).1 := by
+  unfold updateDefaultsP
+  cases h1 : normaliseTop env new with
+  | error e => exact h
+  | ok new' =>
+    cases h2 : merge env s.defaults with
+    | error e => exact h
+    | ok cur =>
+      have hn' := ukeys_normaliseTop env new new' hn h1
+      refine ⟨wellKeyed_updateP env _ _ _ _ _ h.1 hn', ?_⟩
+      intro d hd
+      simp only [List.mem_append, List.mem_singleton] at hd
+      rcases hd with hd | hd
+      · exact h.2 d hd
+      · rw [hd]; exact hn'
+
 end QuantemModel.Config
